@@ -559,6 +559,7 @@ func (x *Exec) appendOp(st *State, in ssa.Instruction, c *ssa.CallCommon, args [
 		r.Nil = And(base.Nil, Eq(Len(add), IntLit(0)))
 		// an append result may share its argument's backing array: not fresh unless the argument was
 		r.Reg.Fresh = base.Reg.Fresh
+		r.Reg.FreshT = base.Reg.FreshT
 		r.Reg.Pool = base.Reg.Pool
 		return r
 	}
@@ -591,6 +592,7 @@ func (x *Exec) appendOp(st *State, in ssa.Instruction, c *ssa.CallCommon, args [
 	esz := types.SizesFor("gc", "amd64").Sizeof(elt)
 	x.countAllocN(st, Mul(IntLit(3*esz), src.Len)) // amortised growth (A-APPEND)
 	reg := newObj(ObjRegion, elt, "app", base.Reg.Fresh)
+	reg.FreshT = base.Reg.FreshT
 	st.Heap[reg] = &RegionVal{Arr: arr, Len: n}
 	return &SliceVal{Reg: reg, Off: IntLit(0), Len: n, Cap: n, Nil: And(base.Nil, Eq(src.Len, IntLit(0))), Elt: elt}
 }
